@@ -30,6 +30,7 @@ type IntV struct {
 	Opq   bool
 	Sym   int   // >0: symbolic value Sym*A+B over symbol table (stage 2)
 	A, B  int64
+	Bits  *bitVec // bit-level reading of an unsigned value (interp_bits.go), nil when not tracked
 }
 
 type FloatV struct {
